@@ -309,7 +309,13 @@ func ledgerScenario(c *Ctx, p ledgerParams) {
 		case r < 90:
 			if p.adversarial {
 				m := pick(c, w.nodes)
-				w.Trust(n, m.addr, !w.trusted[n.id][m.addr])
+				ta := m.addr
+				if c.Rnd.Intn(3) == 0 {
+					// the address of a WALLET lands in the trusted list (nothing checks what an operator enters): it
+					// never seals anything, so the exemption never applies - least of all to what that wallet issues
+					ta = pick(c, w.wallets).Address()
+				}
+				w.Trust(n, ta, !w.trusted[n.id][ta])
 			}
 		case r < 96:
 			var a string
